@@ -86,7 +86,7 @@ func NewCommentReader(r io.Reader, startMatches, endMatches [][]byte, isComments
 
 		var extra int
 		left := data[pos+len(startMatches[index]):]
-		if extra = bytes.Index(left, endMatches[index]); extra == -1 {
+		if extra = indexEnd(left, endMatches[index], !isComments[index]); extra == -1 {
 			if atEOF {
 				if requiredMatches[index] {
 					return 0, nil, commentNotMatch
@@ -140,6 +140,23 @@ func (v *commentReader) Read(p []byte) (n int, err error) {
 	}
 
 	return
+}
+
+// get the position of the first end in data, or -1 if not found.
+// @param escape whether a backslash escapes the next byte, which is true for a literal
+// 		and false for a comment, for example, the \" in "a\"b" does not end the literal.
+func indexEnd(data, end []byte, escape bool) int {
+	if !escape {
+		return bytes.Index(data, end)
+	}
+	for i := 0; i < len(data); i++ {
+		if data[i] == '\\' {
+			i++
+		} else if bytes.HasPrefix(data[i:], end) {
+			return i
+		}
+	}
+	return -1
 }
 
 // get the first match in flags.
